@@ -357,7 +357,7 @@ func child(tmp, alias string, per, from int, budget time.Duration, forward bool)
 			done = true
 		case "run":
 			if forward || (m["panic"] != nil && m["panic"] != "") {
-				os.Stdout.WriteString(line + "\n")
+				outLine(line)
 			}
 		}
 	}
